@@ -63,8 +63,8 @@ pub struct Shared {
     pub start: Instant,
     pub responder: Option<Responder>,
     pub seq: Seq,
-    /// (seq, stream offset after delivery) for every delivered chunk
-    pub deliveries: Vec<(u64, u64)>,
+    /// (seq, stream offset after delivery, virtual instant) for every delivered chunk
+    pub deliveries: Vec<(u64, u64, Duration)>,
     pub eof_delivered: bool,
     pub err_delivered: Option<std::io::ErrorKind>,
 }
@@ -210,7 +210,8 @@ impl AsyncRead for SimIo {
                     s.read_polls_since_progress = 0;
                     let q = s.seq.next();
                     let off = s.bytes_delivered;
-                    s.deliveries.push((q, off));
+                    let at = Instant::now().saturating_duration_since(s.start);
+                    s.deliveries.push((q, off, at));
                     return Poll::Ready(Ok(()));
                 }
             }
